@@ -9,17 +9,19 @@ namespace NV.C20
 /-- the oracle clauses do not look at `first`, and look at `res` only for export_uid -/
 theorem StepOK_congr {bb : Option Name} {P : List Obj} {w1 : World} {r r' : StepRec} (h : StepOK bb P w1 r)
     (ha : r'.actor = r.actor) (hop : r'.op = r.op) (hvs : r'.vs = r.vs) (hcs : r'.creations = r.creations)
-    (hsnap : r'.snap = r.snap) (hcrash : r'.crash = r.crash) (hco : r'.co = r.co) (hbt : r'.bindTo = none)
+    (hsnap : r'.snap = r.snap) (hcrash : r'.crash = r.crash) (hco : r'.co = r.co) (hbt : r'.bindTo = none) (hfo : r'.fpOwner = none) (hvo : r'.vo = none)
     (hres : r'.res = r.res ∨ ∀ t, r.op ≠ .exportUid t) : StepOK bb P w1 r' := by
   have hb : bindClause r' = true := by unfold bindClause; rw [hbt]
-  obtain ⟨a, op, vs, cs, res, snap, crash, first, co, vsnap, vb, bindTo⟩ := r
-  obtain ⟨a', op', vs', cs', res', snap', crash', first', co', vsnap', vb', bindTo'⟩ := r'
+  have hf : fpClause r' = true := by unfold fpClause; rw [hfo]
+  have hv : voClause r' = true := by unfold voClause; rw [hvo]
+  obtain ⟨a, op, vs, cs, res, snap, crash, first, co, vsnap, vb, bindTo, vo, fpOwner⟩ := r
+  obtain ⟨a', op', vs', cs', res', snap', crash', first', co', vsnap', vb', bindTo', vo', fpOwner'⟩ := r'
   simp only at ha hop hvs hcs hsnap hcrash hres hco
   subst ha hop hvs hcs hsnap hcrash hco
   rcases hres with hres | hres
   · subst hres
-    exact ⟨h.inv, h.snap, h.nocrash, h.known, h.euid, h.uid, h.creation, h.noeuid, h.exportc, h.asked, hb⟩
-  · refine ⟨h.inv, h.snap, h.nocrash, h.known, h.euid, ?_, h.creation, h.noeuid, ?_, h.asked, hb⟩
+    exact ⟨h.inv, h.snap, h.nocrash, h.known, h.euid, h.uid, h.creation, h.noeuid, h.exportc, h.asked, hb, hf, hv⟩
+  · refine ⟨h.inv, h.snap, h.nocrash, h.known, h.euid, ?_, h.creation, h.noeuid, ?_, h.asked, hb, hf, hv⟩
     · have := h.uid
       cases op' with
       | exportUid t => exact absurd rfl (hres t)
@@ -32,8 +34,8 @@ theorem StepOK_congr {bb : Option Name} {P : List Obj} {w1 : World} {r r' : Step
 theorem StepOK_co {bb : Option Name} {P : List Obj} {w1 : World} {r : StepRec} (h : StepOK bb P w1 r)
     {A : Obj} (hA : getO P r.actor = some A) (hguard : ¬ (r.actor ≠ masterOid ∧ A.euid = none))
     (x : String × CoAns) : StepOK bb P w1 { r with co := some x } := by
-  obtain ⟨a, op, vs, cs, res, snap, crash, first, co, vsnap, vb, bindTo⟩ := r
-  refine ⟨h.inv, h.snap, h.nocrash, h.known, h.euid, h.uid, h.creation, ?_, h.exportc, h.asked, h.bind⟩
+  obtain ⟨a, op, vs, cs, res, snap, crash, first, co, vsnap, vb, bindTo, vo, fpOwner⟩ := r
+  refine ⟨h.inv, h.snap, h.nocrash, h.known, h.euid, h.uid, h.creation, ?_, h.exportc, h.asked, h.bind, h.fp, h.voc⟩
   simp only at hA hguard
   simp only [noEuidClause, hA]
   rw [if_neg hguard]
@@ -42,8 +44,20 @@ theorem StepOK_co {bb : Option Name} {P : List Obj} {w1 : World} {r : StepRec} (
 theorem StepOK_bind {bb : Option Name} {P : List Obj} {w1 : World} {r : StepRec} (h : StepOK bb P w1 r)
     (x : Option (Oid × Oid × Ans)) (t : Option Oid) (hb : bindClause { r with vb := x, bindTo := t } = true) :
     StepOK bb P w1 { r with vb := x, bindTo := t } := by
-  obtain ⟨a, op, vs, cs, res, snap, crash, first, co, vsnap, vb, bindTo⟩ := r
-  exact ⟨h.inv, h.snap, h.nocrash, h.known, h.euid, h.uid, h.creation, h.noeuid, h.exportc, h.asked, hb⟩
+  obtain ⟨a, op, vs, cs, res, snap, crash, first, co, vsnap, vb, bindTo, vo, fpOwner⟩ := r
+  exact ⟨h.inv, h.snap, h.nocrash, h.known, h.euid, h.uid, h.creation, h.noeuid, h.exportc, h.asked, hb, h.fp, h.voc⟩
+
+/-- the last segment of a via / bind op: its result is geteuid(function) -/
+theorem StepOK_fp {bb : Option Name} {P : List Obj} {w1 : World} {r : StepRec} (h : StepOK bb P w1 r)
+    (t : Oid) (hf : fpClause { r with fpOwner := some t } = true) : StepOK bb P w1 { r with fpOwner := some t } := by
+  obtain ⟨a, op, vs, cs, res, snap, crash, first, co, vsnap, vb, bindTo, vo, fpOwner⟩ := r
+  exact ⟨h.inv, h.snap, h.nocrash, h.known, h.euid, h.uid, h.creation, h.noeuid, h.exportc, h.asked, h.bind, hf, h.voc⟩
+
+/-- a segment in which master::valid_object was asked -/
+theorem StepOK_vo {bb : Option Name} {P : List Obj} {w1 : World} {r : StepRec} (h : StepOK bb P w1 r)
+    (x : String × Ans) (hv : voClause { r with vo := some x } = true) : StepOK bb P w1 { r with vo := some x } := by
+  obtain ⟨a, op, vs, cs, res, snap, crash, first, co, vsnap, vb, bindTo, vo, fpOwner⟩ := r
+  exact ⟨h.inv, h.snap, h.nocrash, h.known, h.euid, h.uid, h.creation, h.noeuid, h.exportc, h.asked, h.bind, h.fp, hv⟩
 
 /-! ### chains of segments -/
 
